@@ -21,6 +21,10 @@ CONSTANTS
   SNum = {3}
   SDen = {1,10}
   Companies = {"alone", "default", "user"}
+  Samplers = {"direct"}
+  SamplerCompanies = {"user"}
+  SamplerRoutes = {"set_prior", "default"}
+  Cube = "exact"
   Export = FALSE
 INVARIANT ZOk
 INVARIANT UserPriorInForceInv
